@@ -293,6 +293,25 @@ def run_property(prop, tier, seed, scratch, only=None, list_only=False, write_ev
 
     for er in extra_results:
         records.append(er)
+        if er["verdict"] == "violation" and er.get("confirm"):
+            # a solver counterexample about constants (sequence lemma): confirm against the real code natively
+            cf = er.pop("confirm")
+            rpath = os.path.join(REPLAY_DIR, prop, re.sub(r"\W+", "_", er["harness"])[:60] + "__claim.rs")
+            spec2 = {"name": cf["module"] + "::" + cf["fn"], "module": cf["module"], "source": cf["source"],
+                     "inst": cf["inst"], "cfg": "dev", "kind": "holds", "features": []}
+            pb = {"check_kind": "claim", "check_desc": er["harness"], "vals_text": "vec![]", "body": er.get("text", "")}
+            replay_mod.write_replay_file(rpath, prop, spec2, pb)
+            meta = replay_mod.read_replay_file(rpath)
+            nat = replay_mod.native_replay(scratch, HARNESS_DIR, meta, profiles=("release",))
+            hits = replay_mod.reproduced("holds", nat)
+            desc = "; ".join("%s: %s %s" % (p_, outs[0][0], outs[0][1][:200]) for p_, outs in nat.items())
+            if hits:
+                er["replay_path"] = rpath
+                er["text"] = er.get("text", "") + " | native confirmation: " + desc
+            else:
+                os.unlink(rpath)
+                er["verdict"] = "inconclusive"
+                er["detail"] = "solver counterexample not confirmed natively: " + desc
         if er["verdict"] == "discharged":
             discharged += 1
         elif er["verdict"] == "violation":
